@@ -1,4 +1,4 @@
-import Pfst.ReconcileLemmas
+import Pfst.ReconcileKept
 /-!
 C13 — reconcile() returns a valid tree that equals the externally edited AST.
 
@@ -51,17 +51,15 @@ theorem foreign_ok_correct (mark : T) (np : NP) (rel : Path) (outa : T) (tid : N
   simp [recNode, applyOps, applyOp, applyAt, applyAct, erase]
 
 /-
-FULL STATEMENT (not proved in this package; evaluated by the driver on every correspondence case as `res_ok`):
-
-  theorem trace_correct (mark edited : T) (wf : WF mark edited) (px : PrimExact mark edited)
-      (h : (reconcile mark edited).fail = false) : result mark edited = erase edited
-
-where `WF` says that every in-tree origin names an existing node of `mark` with the same kind and field shapes, that
-verified nodes of other trees are unmodified, and `PrimExact` that primitives that are `==` are identical.
-Proved below: the case of a node whose fields are all scalars (`trace_correct_partial`: in place, off path, new), the
-wholesale cases (`foreign_ok_correct`, `fallback_overrides`), the frame law that composes children (`frame`), and the
-negation of the unconditional statement (`trace_correct_false`).  Missing: the mutual induction over
-recFields / recPlain / recSliceGo / recPair that threads `cur` through the slice loop.
+STATUS of `trace_correct`: proved below (section "the full theorems") for every pair of trees meeting the decidable side
+condition `wfN mark edited` (defined in `Pfst/Reconcile.lean`, evaluated by the driver on every case as `wf`): every
+in-tree origin names a node of the marked tree of the same kind and field shapes, tree ids of other trees are `≠ 0`,
+primitives that are `==` to the marked value are identical (`primOK`, finding F1), list elements are not lists, and the
+`pair` pseudo nodes of a `Dict` (mode 2) have one kind, a key that is a node or `None`, and an origin consistent with key and
+value (`wfPs` / `pairCons`: what `recurse_slice_dict` reads off `values[i].f` and `keys[i].f`).
+The earlier partial results are kept: the case of a node whose fields are all scalars (`trace_correct_partial`), the
+wholesale cases (`foreign_ok_correct`, `fallback_overrides`), the frame law (`frame`), and the negation of the
+unconditional statement (`trace_correct_false`).
 -/
 
 /-- `recurse_children` on scalar fields: after the emitted `setPrim`s the fields are the edited ones, provided Python `==`
@@ -150,15 +148,12 @@ theorem untouched_silent (mark : T) (np : NP) (rel : Path) (l : Option Loc) (k :
   simp [recNode, hin, T.isNode, T.kids, fields_scalar_silent mark (.fst 0 (qOf l)) cs 0 hs]
 
 /-
-FULL STATEMENTS (not proved; the first is exercised on every run by the `nochange` cases of the harness, where the model
-trace is compared with the real one and the source must be identical):
-
-  theorem no_change (mark : T) (h : NoScalarElems mark) : reconcileOps mark (tagInPlace mark) = []
-  theorem untouched_kept (mark edited : T) (p : Path) : all ancestors of `p` in place ∧ subtree at `p` = tagged mark subtree →
-      ∀ op ∈ reconcileOps mark edited, ¬ covers op p
-
-`no_change` without `NoScalarElems` is false of the code: `None` / `str` elements of list fields under an in-tree parent
-(`Global.names`, `arguments.kw_defaults`) are re-put on every reconcile (`no_change_false`).
+STATUS of `no_change` / `untouched_kept`: proved below (section "the full theorems") with the decidable predicates
+`stillN` (subtree in place and unchanged), `keptN` and `touches` (all defined in `Pfst/Reconcile.lean`; proofs in
+`Pfst/ReconcileQuiet.lean`, `Pfst/ReconcileKept.lean`).
+`no_change` without the restriction of `stillN` to node-only lists is false of the code: `None` / `str` elements of list
+fields under an in-tree parent (`Global.names`, `arguments.kw_defaults`) are re-put on every reconcile
+(`no_change_false`, finding F8).
 -/
 
 /-- `global a` unchanged: the trace is not empty (the identifier is put again; harmless for the source, observed in the real
@@ -202,6 +197,125 @@ theorem rounds (ok : T → T → Prop) (hok : ∀ m e, ok m e → result m e = e
         simp [List.getLastD]
       rw [this]
 
+/-! ### the full theorems -/
+
+/-- TARGET 1, `recurse_node` at any slot, every origin case (in place / off path / verified node of another tree /
+unverified node of another tree / pure AST, incl. the `except → put_node` fallback): if the node meets the side conditions
+and the output tree holds at the slot either anything (when the node is put first) or what the parent recursion left there
+(`slot`: the marked node under an in-tree parent, the edited node under a parent that was put as a pure AST), then replaying
+the emitted operations on the slot content gives exactly the structure of the edited node, unless the exception propagates
+(`fail`). -/
+theorem node_correct (mark n : T) (np : NP) (rel : Path) (outa : T) (wf : wfN mark n = true)
+    (hs : putsFirst np rel n = true ∨ slot mark np rel outa n) (h : (recNode mark np rel outa n).fail = false) :
+    applyOps (recNode mark np rel outa n).ops outa = erase n :=
+  recNode_ok mark n np rel outa wf hs h
+
+/-- an in-tree node never lets the exception out (`except (NodeError, SyntaxError, ValueError, NotImplementedError)`) -/
+theorem intree_never_fails (mark : T) (np : NP) (rel : Path) (outa : T) (l : Option Loc) (k : Nat) (cs : List T) :
+    (recNode mark np rel outa (.node (.tree l) k cs)).fail = false := by
+  rw [recNode_tree]
+  simp only []
+  repeat' split
+  all_goals rfl
+
+/-- TARGET 1, `recurse_children` over an arbitrary field list (fields `pre.length …` of a node whose earlier fields are
+already done): scalar fields, node fields, slice fields, one-by-one list fields. -/
+theorem children_correct (mark : T) (fs : List T) (np : NP) (oks pre : List T) (o : Origin) (k : Nat)
+    (wf : wfFs mark fs = true) (hnn : np ≠ .none) (hs : fieldSlots mark np pre.length oks fs)
+    (h : (recFields mark np pre.length oks fs).fail = false) :
+    applyOps (recFields mark np pre.length oks fs).ops (.node o k (pre ++ oks)) = .node o k (pre ++ eraseL fs) :=
+  recFields_ok mark fs np pre.length oks pre o k wf hnn rfl hs h
+
+/-- TARGET 1, `recurse_slice` on a list field of ANY length under an in-tree parent (`q` its path in the marked tree, `fi`
+the field): first-element condition, contiguous-run detection (runs copied from the marked tree, verified runs of another
+tree put as one slice, unverified runs element by element), insertion past the end, tail deletion.  The output list
+initially holds the marked elements `mitems`; after the trace it holds the edited ones. -/
+theorem slice_correct (mark : T) (q : Path) (fi : Nat) (s : Option Nat) (mitems items : List T)
+    (hm : markAt mark (q ++ [fi]) = .many s 1 mitems) (wf : wfEs mark items = true)
+    (h : (recSliceGo mark (.fst 0 q) fi s false 0 {} (eraseL mitems) items).fail = false) :
+    applyOps (recSliceGo mark (.fst 0 q) fi s false 0 {} (eraseL mitems) items).ops (.many s 1 (eraseL mitems))
+      = .many s 1 (eraseL items) := by
+  have hk : (markAt mark (q ++ [fi])).kids = mitems := by rw [hm]; rfl
+  have hsl := elemSlots_mark mark q fi items 0 wf
+  rw [hk, List.drop_zero] at hsl
+  have hsi : SI (.fst 0 q) fi 0 {} (eraseL mitems) items (eraseL mitems) 0 := by simp [SI, runFree]
+  have := recSlice_ok mark items (.fst 0 q) fi s false 0 0 {} (eraseL mitems) [] (eraseL mitems) 0 s 1 (by simpa using wf)
+    (by simp) rfl hsl hsi (by simp) h
+  simpa using this
+
+/-- `recurse_slice` under a parent that was put as a pure AST (or is an unverified node of another tree): the output list
+already holds the edited elements; the operations emitted (formatting copies of in-tree and foreign runs) leave that
+structure in place. -/
+theorem slice_correct_ast (mark : T) (np : NP) (hb : np.base = none) (fi : Nat) (s ns : Option Nat) (items : List T)
+    (wf : wfEs mark items = true) (h : (recSliceGo mark np fi ns false 0 {} (eraseL items) items).fail = false) :
+    applyOps (recSliceGo mark np fi ns false 0 {} (eraseL items) items).ops (.many s 1 (eraseL items))
+      = .many s 1 (eraseL items) := by
+  have hsi : SI np fi 0 {} (eraseL items) items (eraseL items) 0 := by simp [SI, runFree]
+  have hnn : np ≠ .none := by intro e; subst e; simp [NP.base] at hb
+  have := recSlice_ok mark items np fi ns false 0 0 {} (eraseL items) [] (eraseL items) 0 s 1 (by simpa using wf) hnn rfl
+    (elemSlots_self mark np fi false hb items 0) hsi (by simp) h
+  simpa using this
+
+/-- TARGET 1, `recurse_slice_dict` on a `Dict` of ANY length under an in-tree parent: the elements are `pair [key, value]`
+pseudo nodes of kind `pk` whose origin is consistent with key and value (`wfPs`), the marked `Dict` holds pairs of the same
+kind (`allShaped`).  Same loop as `recurse_slice`; per pair `recurse_node` on the key (or `put(None)` of a removed key) and on
+the value. -/
+theorem dict_correct (mark : T) (q : Path) (fi : Nat) (s : Option Nat) (pk : Nat) (mitems items : List T)
+    (hm : markAt mark (q ++ [fi]) = .many s 2 mitems) (hms : allShaped pk mitems = true) (wf : wfPs mark pk items = true)
+    (h : (recSliceGo mark (.fst 0 q) fi s true 0 {} (eraseL mitems) items).fail = false) :
+    applyOps (recSliceGo mark (.fst 0 q) fi s true 0 {} (eraseL mitems) items).ops (.many s 2 (eraseL mitems))
+      = .many s 2 (eraseL items) := by
+  have hk : (markAt mark (q ++ [fi])).kids = mitems := by rw [hm]; rfl
+  have hsl := elemSlotsD_mark mark q fi pk items 0 wf
+  rw [hk, List.drop_zero] at hsl
+  have hsi : SI (.fst 0 q) fi 0 {} (eraseL mitems) items (eraseL mitems) 0 := by simp [SI, runFree]
+  have := recSlice_ok mark items (.fst 0 q) fi s true pk 0 {} (eraseL mitems) [] (eraseL mitems) 0 s 2 (by simpa using wf)
+    (by simp) rfl hsl hsi (fun _ _ => allE_eraseL pk mitems (allShaped_mem pk mitems hms)) h
+  simpa using this
+
+/-- TARGET 1, `trace_correct`: for every pair of trees meeting `wfN` (see the STATUS comment above), if the exception does
+not leave `reconcile()`, replaying the operation trace on the structure of the marked copy yields exactly the structure of
+the edited tree.  For an in-tree root the `fail` hypothesis always holds (`intree_never_fails`).  The only trees outside
+`wfN` met in the correspondence runs are those of finding F1 (`primOK` false); for them the conclusion is evaluated per case
+by the driver (`res_ok`) and is false (`trace_correct_false`). -/
+theorem trace_correct (mark edited : T) (wf : wfN mark edited = true) (h : (reconcile mark edited).fail = false) :
+    result mark edited = erase edited :=
+  recNode_ok mark edited .none [] (erase mark) wf (Or.inr (by simp [slot, NP.base, markAt_nil])) h
+
+/-- `rounds` instantiated with `trace_correct`: any number of mark / mutate / reconcile rounds each meeting the side
+conditions ends in the structure of the last edited tree. -/
+theorem rounds_correct (es : List T) (m : T)
+    (h : roundsOK (fun m e => wfN m e = true ∧ (reconcile m e).fail = false) m es) :
+    runRounds m es = erase (es.getLastD m) :=
+  rounds _ (fun m e hme => trace_correct m e hme.1 hme.2) es m h
+
+/-- TARGET 2 at any slot (full form of `untouched_silent`): a subtree all of whose nodes are in place, whose scalars are
+`==` to the marked ones and whose list fields have the marked lengths and hold nodes only (`stillN`) emits NO operation
+and cannot fail, when the slot holds what the parent recursion left there. -/
+theorem untouched_silent_full (mark n : T) (np : NP) (rel : Path) (outa : T) (hst : stillN mark np rel n = true)
+    (hs : slot mark np rel outa n) : recNode mark np rel outa n = ⟨[], false⟩ :=
+  recNode_quiet mark n np rel outa hst hs
+
+/-- TARGET 2, `no_change`: the edited tree is the marked tree with every node in place and primitives `==` to the marked
+ones, outside the documented re-put quirks (`stillN`: list fields hold nodes only — no `Global` / `Nonlocal` names list, no
+`None` in `kw_defaults`; `Dict` pairs in place with key and value in place or `None` over `None`): the trace is empty and
+nothing is raised, so the returned tree is the untouched copy of the marked tree. -/
+theorem no_change (mark edited : T) (h : stillN mark .none [] edited = true) : reconcile mark edited = ⟨[], false⟩ :=
+  recNode_quiet mark edited .none [] (erase mark) h (by simp [slot, NP.base, markAt_nil])
+
+theorem no_change_ops (mark edited : T) (h : stillN mark .none [] edited = true) : reconcileOps mark edited = [] := by
+  simp [reconcileOps, no_change mark edited h]
+
+/-- TARGET 3, `untouched_kept`: `p` is a path (field index, then element index for list fields) from the root to a subtree
+that is unchanged (`stillN`), every node on the way is in place, no retry-at-parent fallback fires at it and no list on the
+way is a `Dict` (`keptN`; a `Dict` may occur anywhere else, also inside the untouched subtree), and
+the edited tree meets the side conditions.  Then every operation of the trace is disjoint from that subtree: no `put` /
+`setPrim` at it, above it or inside it, no slice put whose replaced range contains the element on the path, no tail
+deletion from at or before it (`touches`, region of an operation = the path prefix it rewrites). -/
+theorem untouched_kept (mark edited : T) (p : Path) (wf : wfN mark edited = true)
+    (hk : keptN mark p .none [] edited = true) : ∀ op ∈ reconcileOps mark edited, touches op p = false :=
+  kept_node mark p edited .none [] (erase mark) wf hk (by simp [slot, NP.base, markAt_nil])
+
 /-! ### non-vacuity -/
 
 /-- the swap / replace / append script on `a = b ; c = d` replays to the edited structure -/
@@ -217,5 +331,108 @@ example : applyOps (recNode m0 (.fst 0 [0, 0]) [0] (name .new 10) (name (loc [0,
 
 /-- unchanged tree: empty trace -/
 example : reconcileOps m0 m0 = [] := by decide
+
+
+/-! ### non-vacuity of the full theorems -/
+
+/-- statement `i` of the three-statement marked body: `t_i = v_i`, every node tagged in place -/
+def st (i : Nat) : T := assign (loc [] 0 (some i)) (name (loc [0, i] 0) (10 + 2 * i)) (name (loc [0, i] 1) (11 + 2 * i))
+/-- marked tree `a = b ; c = d ; e = f` -/
+def m3 : T := modl (.tree none) [st 0, st 1, st 2]
+def newSt (n : Nat) : T := assign .new (name .new n) (name .new (n + 1))
+
+/-- reorder + insert + delete: `e = f ; NEW ; a = b` (the second statement is deleted) -/
+def e3 : T := modl (.tree none) [st 2, newSt 40, st 0]
+example : wfN m3 e3 = true ∧ (reconcile m3 e3).fail = false ∧ (reconcileOps m3 e3).length = 5 := by decide
+example : result m3 e3 = erase e3 := trace_correct m3 e3 (by decide) (by decide)
+
+/-- insertion past the end and a contiguous run moved as one slice: `c = d ; e = f ; a = b ; NEW ; NEW` -/
+def e3x : T := modl (.tree none) [st 1, st 2, st 0, newSt 40, newSt 50]
+example : wfN m3 e3x = true ∧ (reconcileOps m3 e3x).length = 9 := by decide +kernel
+example : result m3 e3x = erase e3x := trace_correct m3 e3x (by decide +kernel) (by decide +kernel)
+
+/-- tail deletion after a moved statement: `c = d` alone -/
+def e3d : T := modl (.tree none) [st 1]
+example : wfN m3 e3d = true ∧ (reconcileOps m3 e3d).length = 3 := by decide
+example : result m3 e3d = erase e3d := trace_correct m3 e3d (by decide) (by decide)
+
+/-- a moved (duplicated) node: the value of the second statement is put as the value of the first -/
+def eMv : T := modl (.tree none)
+  [assign (loc [] 0 (some 0)) (name (loc [0, 0] 0) 10) (name (loc [0, 1] 1) 13), st 1, st 2]
+example : wfN m3 eMv = true ∧ (reconcileOps m3 eMv).length = 1 := by decide
+example : result m3 eMv = erase eMv := trace_correct m3 eMv (by decide) (by decide)
+
+/-- nodes of another tree: a verified `Name` as the value of the second statement; the third statement replaced by an
+unverified statement of tree 1 that contains a node of the marked tree and a renamed identifier -/
+def eFo : T := modl (.tree none)
+  [st 0,
+   assign (loc [] 0 (some 1)) (name (loc [0, 1] 0) 12) (.node (.foreign true 1 (some ⟨[0, 0], 1, none⟩) none) 1 [.prim (v 50)]),
+   .node (.foreign false 1 (some ⟨[], 0, some 0⟩) (some 0)) 2
+     [.node (.foreign false 1 (some ⟨[0, 0], 0, none⟩) none) 1 [.prim (v 60)], name (loc [0, 0] 1) 11]]
+example : wfN m3 eFo = true ∧ (reconcileOps m3 eFo).length = 4 := by decide
+example : result m3 eFo = erase eFo := trace_correct m3 eFo (by decide) (by decide)
+
+/-- the hypotheses of `slice_correct` on the body of `e3` -/
+example : applyOps (recSliceGo m3 (.fst 0 []) 0 (some 0) false 0 {} (eraseL [st 0, st 1, st 2]) [st 2, newSt 40, st 0]).ops
+      (.many (some 0) 1 (eraseL [st 0, st 1, st 2])) = .many (some 0) 1 (eraseL [st 2, newSt 40, st 0]) :=
+  slice_correct m3 [] 0 (some 0) [st 0, st 1, st 2] [st 2, newSt 40, st 0] (by rfl) (by decide) (by decide)
+
+/-- the side condition matters: without `primOK` the witness of `trace_correct_false` is excluded -/
+example : wfN (.node (.tree none) 1 [.prim ⟨0, 0⟩]) (.node (.tree none) 1 [.prim ⟨0, 1⟩]) = false := by decide
+
+/-- `no_change`: the marked tree itself (tagged in place), and a copy whose identifier is `==` but not identical -/
+example : stillN m3 .none [] m3 = true := by decide
+example : reconcile m3 m3 = ⟨[], false⟩ := no_change m3 m3 (by decide)
+example : reconcileOps m3 (modl (.tree none) [assign (loc [] 0 (some 0)) (name (loc [0, 0] 0) 10)
+      (.node (loc [0, 0] 1) 1 [.prim ⟨11, 77⟩]), st 1, st 2]) = [] :=
+  no_change_ops m3 _ (by decide)
+/-- the quirk is excluded by `stillN` (`no_change_false`) -/
+example : stillN (.node (.tree none) 5 [.many none 1 [.prim ⟨3, 3⟩]]) .none [] (.node (.tree none) 5 [.many none 1 [.prim ⟨3, 3⟩]])
+    = false := by decide
+
+/-- `untouched_kept`: first statement untouched while a statement is inserted after it and the second one moved down
+(path `[0, 0]`: field `body`, element 0); the trace is not empty and no operation touches the statement -/
+def eK : T := modl (.tree none) [st 0, newSt 40, st 1]
+example : wfN m3 eK = true ∧ keptN m3 [0, 0] .none [] eK = true ∧ (reconcileOps m3 eK).length = 3 := by decide
+example : ∀ op ∈ reconcileOps m3 eK, touches op [0, 0] = false := untouched_kept m3 eK [0, 0] (by decide) (by decide)
+/-- … whereas the moved statement is touched -/
+example : (reconcileOps m3 eK).any (fun op => touches op [0, 2]) = true := by decide
+
+/-- deeper: the value of the first statement is untouched while its target is replaced and the other statements swapped -/
+def eK2 : T := modl (.tree none)
+  [assign (loc [] 0 (some 0)) (name .new 99) (name (loc [0, 0] 1) 11), st 2, st 1]
+example : wfN m3 eK2 = true ∧ keptN m3 [0, 0, 1] .none [] eK2 = true ∧ keptN m3 [0, 0] .none [] eK2 = false := by decide
+example : ∀ op ∈ reconcileOps m3 eK2, touches op [0, 0, 1] = false := untouched_kept m3 eK2 [0, 0, 1] (by decide) (by decide)
+
+
+/-! ### non-vacuity: `Dict` -/
+
+def pr (o : Origin) (k v : T) : T := .node o 9 [k, v]
+/-- pair `i` of the marked `Dict`, tagged in place -/
+def dpair (i : Nat) : T := pr (loc [] 0 (some i)) (name (loc [0, i] 0) (20 + 2 * i)) (name (loc [0, i] 1) (21 + 2 * i))
+def dict (o : Origin) (ps : List T) : T := .node o 7 [.many (some 3) 2 ps]
+/-- marked `{a: b, c: d, e: f}` -/
+def mD : T := dict (.tree none) [dpair 0, dpair 1, dpair 2]
+/-- `{e: f, NEW: NEW, **b}`: third pair first, a new pair, the value of the first pair under a removed key; `c: d` deleted -/
+def eD : T := dict (.tree none) [dpair 2, pr .new (name .new 50) (name .new 51), pr .new .nil (name (loc [0, 0] 1) 21)]
+example : wfN mD eD = true ∧ (reconcileOps mD eD).length = 7 := by decide
+example : result mD eD = erase eD := trace_correct mD eD (by decide) (by decide)
+/-- a run of two pairs moved as one slice, insertion past the end -/
+def eD2 : T := dict (.tree none) [dpair 1, dpair 2, dpair 0, pr .new (name .new 50) (name .new 51)]
+example : wfN mD eD2 = true ∧ (reconcileOps mD eD2).length = 11 := by decide +kernel
+example : result mD eD2 = erase eD2 := trace_correct mD eD2 (by decide +kernel) (by decide +kernel)
+/-- tail deletion -/
+def eD3 : T := dict (.tree none) [dpair 1]
+example : result mD eD3 = erase eD3 := trace_correct mD eD3 (by decide) (by decide)
+/-- the hypotheses of `dict_correct` -/
+example : applyOps (recSliceGo mD (.fst 0 []) 0 (some 3) true 0 {} (eraseL [dpair 0, dpair 1, dpair 2])
+      [dpair 2, pr .new (name .new 50) (name .new 51)]).ops (.many (some 3) 2 (eraseL [dpair 0, dpair 1, dpair 2]))
+      = .many (some 3) 2 (eraseL [dpair 2, pr .new (name .new 50) (name .new 51)]) :=
+  dict_correct mD [] 0 (some 3) 9 _ _ (by rfl) (by decide) (by decide) (by decide)
+/-- unchanged `Dict`: empty trace -/
+example : reconcile mD mD = ⟨[], false⟩ := no_change mD mD (by decide)
+/-- an inconsistent pair origin (pair tagged as element 2, value of element 0) is excluded by `wfN` -/
+example : wfN mD (dict (.tree none) [pr (loc [] 0 (some 2)) (name (loc [0, 2] 0) 24) (name (loc [0, 0] 1) 21)]) = false := by
+  decide
 
 end Pfst.C13
